@@ -201,6 +201,10 @@ SHAPES = [
      '    b = SecretInteger(Input(name="b", party=alice))\n    unused = SecretInteger(Input(name="unused", party=alice))\n'
      '    spare = Input(name="spare", party=alice)\n    return [Output(a + b, "s", alice)]\n',
      ["Alice"], [("a", "Alice", "SecretInteger"), ("b", "Alice", "SecretInteger"), ("unused", "Alice", "SecretInteger"), ("spare", "Alice", None)]),
+    ("declarations-after-the-first-output",
+     'from nada_dsl import *\n\ndef nada_main():\n    owner = Party(name="Owner")\n    k = PublicInteger(Input(name="k", party=owner))\n'
+     '    return [Output(SecretInteger(Input(name="x" + str(i), party=Party(name="P" + str(i)))) * k, "o" + str(i), owner) for i in range(3)]\n',
+     ["Owner", "P0", "P1", "P2"], [("k", "Owner", "PublicInteger"), ("x0", "P0", "SecretInteger"), ("x1", "P1", "SecretInteger"), ("x2", "P2", "SecretInteger")]),
     ("augmented-assignment-keeps-the-operand",
      'from nada_dsl import *\n\ndef nada_main():\n    p = Party(name="P")\n    a = PublicInteger(Input(name="a", party=p))\n'
      '    c = PublicInteger(Input(name="c", party=p))\n    b = SecretInteger(Input(name="b", party=p))\n    acc = a\n'
